@@ -250,6 +250,18 @@ def elements(F, res, pol):
                 goodk = t[0] == 'ctor' and t[2] == 'Some' and canon(cfield(t, '0')) == idx
                 enc = 'Some(index)'
             goodk = goodk and meth == 'active' and is_reenc_of(c['args'][2], Rs + '.kind.Active.offset') and len(nz) == 1
+            if goodk:
+                # the MVP form (None) is used exactly when the index is 0: nothing else may force the explicit-index encoding
+                at, tv = nz[0]
+                while isinstance(at, tuple) and at[0] == 'un' and at[1] == 'Not':
+                    at, tv = at[2], (not tv)
+                is_zero = non_zero = False
+                if isinstance(at, tuple) and at[0] == 'bin' and at[1] in ('Eq', 'Ne') and at[3] == ('lit', 0, at[3][2] if len(at[3]) > 2 else ''):
+                    eq = tv if at[1] == 'Eq' else (not tv)
+                    is_zero, non_zero = eq, (not eq)
+                goodk = is_zero if t == NONE else non_zero
+                if not goodk:
+                    enc += ' although the table index is %s0' % ('not ' if t == NONE else '')
             key += '/' + ('idx0' if t == NONE else 'idxN')
         else:
             goodk = meth == rk.lower()
@@ -274,7 +286,8 @@ def elements(F, res, pol):
             seen.add((rk, ri))
             res.ok(key, {'segment': 'element', 'kind': rk, 'items': ri, 'call': meth})
         else:
-            res.bad(key, 'a %s element segment with %s items is emitted as %s(%s)' % (rk, ri, meth, ', '.join(show(a)[:60] for a in c['args'][1:])))
+            res.bad(key, 'a %s element segment with %s items is emitted as %s(%s)%s' % (rk, ri, meth, ', '.join(show(a)[:60] for a in c['args'][1:]),
+                                                                                         (' [' + enc + ']') if rk == 'Active' else ''))
     for k in ('Passive', 'Declared', 'Active'):
         for i in ('Functions', 'Expressions'):
             if (k, i) not in seen and not any(('element/emit/%s/%s' % (k, i)) in v['key'] for v in res.violations):
